@@ -95,6 +95,12 @@ def _faults():
         ("index-sum", "mov r1, 2+{V}(r2)", lambda v: not (-65536 < v + 2 < 65536), 8, None),
         ("index-sum-deferred", "clr @2+{V}(r3)", lambda v: not (-65536 < v + 2 < 65536), 5, None),
         ("index-product-src", "mov 2*{V}(r2), r0", lambda v: not (-65536 < v * 2 < 65536), 4, None),
+        ("byte-product-sum", ".byte 2*3+{V}", lambda v: not (-256 < 6 + v < 256), 6, None),
+        ("byte-sum3", ".byte 1+{V}+1", lambda v: not (-256 < v + 2 < 256), 6, None),
+        ("word-quotient", ".word 6*{V}/0", lambda v: True, 6, None),
+        ("imm-sum3", "mov #1+2+{V}, r0", lambda v: not (-65536 < v + 3 < 65536), 5, None),
+        ("dangling-operator", ".word ({V} * )", lambda v: True, ("find", ")", 0), None),
+        ("dangling-operator-blanks", ".word <{V} /   >", lambda v: True, ("find", ">", 0), None),
         ("abs", "clr @#{V}", lambda v: not (-65536 < v < 65536), 6, None),
         ("blkb", ".blkb {V}", lambda v: not (0 <= v < 65536), 6, ("le", 6)),
         ("branch", "br .+{V}", lambda v: (v - 2) % 2 == 1 or not (-256 <= v - 2 <= 254), 0, None),
